@@ -22,6 +22,7 @@
 EXTENDS Integers, Sequences, FiniteSets, TLC
 
 CONSTANTS Names,          \* actors below the root
+          PausedAtBirth,  \* TRUE: a new actor's mailbox starts paused and is resumed when OnLaunch is handled
           Parent,         \* [Names -> Names \cup {"root"}]
           Ops,            \* user operations the driver may send: set of <<op, arg>>
           MaxMsgs,        \* number of driver Tell calls
@@ -175,7 +176,10 @@ RECURSIVE SpawnAll(_, _, _)
 SpawnAll(S, p, cs) ==
     IF cs = {} THEN S
     ELSE LET c == CHOOSE c \in cs : TRUE
-             W1 == [S[1] EXCEPT !.st[c] = "running", !.reg = @ \cup {c}, !.children[p] = @ \cup {c}]
+             \* PausedAtBirth: the mailbox is created paused (user messages wait, system messages are handled) and is
+             \* resumed by the handling of OnLaunch, so that nothing told by path can overtake OnLaunch
+             W1 == [S[1] EXCEPT !.st[c] = "running", !.reg = @ \cup {c}, !.children[p] = @ \cup {c},
+                                !.paused[c] = IF PausedAtBirth THEN TRUE ELSE @]
          IN SpawnAll(Send(<<W1, S[2]>>, c, Launch(p)), p, cs \ {c})
 
 \* what the launch behaviour does: create the designated children that were never created
@@ -250,7 +254,7 @@ Handle(S, x, m) ==
        ELSE
        CASE m.k = "launch" ->
               IF z THEN S
-              ELSE LET S1 == Deliver(S, x, "launch", "")
+              ELSE LET S1 == Deliver(<<[W EXCEPT !.paused[x] = IF PausedAtBirth THEN FALSE ELSE @], S[2]>>, x, "launch", "")
                        \* children are (re)created by the launch behaviour unless they already exist
                        S2 == LaunchBody(S1, x)
                    IN IF x \in cfg.launchFail /\ W.inc[x] = 0 THEN Failed(S2, x) ELSE S2
@@ -291,7 +295,8 @@ Tops == ChildrenOf(Root)
 
 DrvSpawnTop(t) ==
     /\ t \in Tops /\ w.st[t] = "absent"
-    /\ LET W1 == [w EXCEPT !.st[t] = "running", !.reg = @ \cup {t}, !.children[Root] = @ \cup {t}]
+    /\ LET W1 == [w EXCEPT !.st[t] = "running", !.reg = @ \cup {t}, !.children[Root] = @ \cup {t},
+                               !.paused[t] = IF PausedAtBirth THEN TRUE ELSE @]
            S == Send(<<W1, h>>, t, Launch(Root))
        IN w' = S[1] /\ h' = S[2]
     /\ UNCHANGED cfg
